@@ -4,7 +4,7 @@
      Sense(kinds, iters, res, idx, muted)   result of clf.sense with the target list and iterations=iters: "found" with the list
                                             position of the returned target, "none", or the exception name;
                                             muted = the last driver call of the sense() was mute()
-     Listen(res)                            "found" / "none"
+     Listen(kinds = <<kind>>, res)          "found" / "none" / the exception name
      Exchange(sent, res)                    which driver method carried the data: "cmd" / "rsp" / "nothing"
    each with the post-state projection (clf.target kind, device field). *)
 EXTENDS ClfSense, Json, IOUtils, TLCExt
@@ -21,11 +21,11 @@ TInit == /\ tid \in 1..Len(Traces) /\ l = 1
 Ev == T[l]
 IsEv == l <= Len(T) /\ l' = l + 1 /\ UNCHANGED tid
 
-KindsOk == \A i \in DOMAIN Ev.kinds : Ev.kinds[i] \in Kinds
+KindsOk == \A i \in DOMAIN Ev.kinds : Ev.kinds[i] \in Kinds \cup ListenKinds
 Match ==
     CASE Ev.a = "Sense"    -> /\ KindsOk /\ Ev.iters >= 1
                               /\ Sense(Ev.kinds, Ev.iters)
-      [] Ev.a = "Listen"   -> Listen(Ev.res = "found")
+      [] Ev.a = "Listen"   -> Len(Ev.kinds) = 1 /\ Ev.kinds[1] \in ListenKinds /\ Listen(Ev.kinds[1])
       [] Ev.a = "Exchange" -> Exchange
       [] OTHER -> FALSE
 Guarded == IsEv /\ Match
